@@ -19,11 +19,13 @@ from vlib.core import Outcome, Sub
 
 PROPERTY = "C09"
 RULE = ("A case is an interval [a,b] (a from a fixed list of integers/dyadic/irrational-ish floats, b-a from a list "
-        "containing 2 and non-2 lengths), a grid configuration and, per dimension (d=1 mostly, d=2 tensor spot checks), "
+        "containing 2 and non-2 lengths; both multiplied by a per-dimension unit s from {1 (6/13 of the draws), 2^-30, 1e-9, "
+        "1e-7, 1e-6, 1e-3, 1e3, 2^20}, offsets included, e.g. [2e-9, 1.1e-8]; d=2 mixes units), a grid configuration and, per dimension (d=1 mostly, d=2 tensor spot checks), "
         "a refinement tree given as an explicit list of splits [leaf index, ratio]: start with the leaf [a,b] (levels 0,0), "
         "every split inserts leaf_left + ratio*(leaf width) with level max(neighbour levels)+1. Shapes: random leaf, always "
         "left-most / right-most leaf (strongly graded, up to 2^-25), zig-zag towards an interior point, complete binary "
-        "prefix of depth 1-3 followed by random splits; ratios: 0.5 (dyadic), uniform in [0.2,0.8], {0.2,0.8} extremes or "
+        "prefix of depth 1-3 followed by random splits, nearly-uniform (complete depth 1-4 whose splits miss the midpoint "
+        "by a relative 1e-6..1e-4, so the widths are nearly but not equal); ratios: 0.5 (dyadic), uniform in [0.2,0.8], {0.2,0.8} extremes or "
         "mixed; 1-40 splits (3-42 points). A quarter (hierarchical: a third) of the cases carries 'seq': ONE grid object is "
         "driven through 2-3 set_grid calls (another tree on the same [a,b], a refined superset, the same points "
         "relabelled, back to the first tree) and every clause is evaluated after EVERY set_grid; a violation that "
@@ -37,6 +39,8 @@ ASSUMPTIONS = [
     "grids are fed as SpatiallyAdaptiveSingleDimensions2 feeds them: python lists of sorted floats incl. both domain ends, "
     "integer tree levels (ends 0, exactly one level-1 point, child level = max(neighbour levels)+1), at least 3 points",
     "modified_basis only together with boundary=False (the constructors assert this)",
+    "every tolerance is relative: to max|reference weight| / (b-a), to sum|w_i f(x_i)| + (b-a)*max|f| for integrals, to "
+    "the magnitude of the closed-form value for monomials; nothing in the harness is absolute in the unit of [a,b]",
     "'enough points' for degree k of a hierarchical rule := the tree contains the complete binary tree of depth m with "
     "k <= min(p, m+1) (Lagrange) / k <= min(p, 2^m) (B-spline); for k=p this is depth p-1 / ceil(log2(p+1)) "
     "(DESIGN section 3 item 2); m>=1 always, so constants, linears (and quadratics for p>=2) are demanded on every tree",
@@ -126,6 +130,8 @@ def tree_classes(out, pts, lev, splits):
         out.cls("non-uniform")
     if max(w) > 1000 * min(w):
         out.cls("strongly-graded(>1e3)")
+    if min(w) * (1 + 1e-9) < max(w) <= min(w) * (1 + 1e-3):
+        out.cls("nearly-equidistant")
     if any(abs(r - 0.5) > 1e-12 for _, r in splits):
         out.cls("weighted-midpoints")
 
@@ -205,13 +211,25 @@ def check_trap_weights(out, sub, pts, w, mode, tag=""):
             out.bad("%s/non-negative/%s" % (sub, mode), "%s weight[%d]=%r < 0" % (tag, neg[0], w[neg[0]]))
     if mode == "boundary" or (mode == "modified" and len(w) >= 2):
         x = pts if mode == "boundary" else pts[1:-1]
-        for (al, be) in ((0.0, 1.0), (1.0, 0.0), (3.0, -2.0)):
-            got = math.fsum(w[i] * (al * x[i] + be) for i in range(len(w)))
-            ref = al * mono_integral(a, b, 1) + be * (b - a)
-            sc = math.fsum(abs(w[i]) * abs(al * x[i] + be) for i in range(len(w))) + (b - a)
+        # test functions al*t + be in the dimensionless coordinate t = (x-a)/(b-a) (so that the tolerance is relative
+        # to b-a whatever the unit of the interval is) and the raw coordinate x itself
+        for (al, be) in ((0.0, 1.0), (1.0, 0.0), (3.0, -2.0), (None, None)):
+            if al is None:
+                fx = [float(t) for t in x]
+                ref = mono_integral(a, b, 1)
+                fmax = max(abs(a), abs(b))
+                name = "x"
+            else:
+                fx = [al * ((t - a) / (b - a)) + be for t in x]
+                ref = (0.5 * al + be) * (b - a)
+                fmax = max(abs(be), abs(al + be))
+                name = "%g*t%+g, t=(x-a)/(b-a)" % (al, be)
+            got = math.fsum(w[i] * fx[i] for i in range(len(w)))
+            # scale: what the rule sums up, and (b-a) * max|f| on [a,b] (the exact value may vanish by symmetry)
+            sc = math.fsum(abs(w[i]) * abs(fx[i]) for i in range(len(w))) + (b - a) * fmax
             if not abs(got - ref) <= 1e-11 * sc:      # rounding seen: < 1e-14*sc
                 out.bad("%s/linear-exactness/%s" % (sub, mode),
-                        "%s integral of %g*x+%g is %r, exact %r (n=%d) pts=%s" % (tag, al, be, got, ref, len(pts), pts[:8]))
+                        "%s integral of %s is %r, exact %r (n=%d) pts=%s" % (tag, name, got, ref, len(pts), pts[:8]))
                 break
     return wref
 
@@ -235,9 +253,15 @@ def _silent(fn, *a, **kw):
         return fn(*a, **kw)
 
 
+_SCALES = {"2^-30": 2.0 ** -30, "1e-9": 1e-9, "1e-7": 1e-7, "1e-6": 1e-6, "1e-3": 1e-3, "1": 1.0, "1e3": 1e3,
+           "2^20": 2.0 ** 20}
+
+
 def _domain_of(case):
-    a = [float(t) for t in case["a"]]
-    b = [a[d] + float(case["len"][d]) for d in range(len(a))]
+    """[a,b] per dimension = (a0, a0 + len) * s with the per-dimension unit s = case['scale'][d] (label of _SCALES)."""
+    sc = [_SCALES[t] for t in case.get("scale", ["1"] * len(case["a"]))]
+    a = [float(case["a"][d]) * sc[d] for d in range(len(sc))]
+    b = [a[d] + float(case["len"][d]) * sc[d] for d in range(len(sc))]
     return a, b
 
 
@@ -285,6 +309,10 @@ def drive(case, sub, out, a, b, make_grid, check_round):
     earlier set_grid calls and the signature gets SEQ_SUFFIX."""
     from vlib.core import guarded
     rounds = seq_rounds(case, a, b)
+    for t in case.get("scale", ["1"] * len(a)):
+        out.cls("interval-scale=" + t)
+    if len(set(case.get("scale", ["1"]))) > 1:
+        out.cls("interval-scale:anisotropic")
     if len(rounds) > 1:
         out.cls("seq-rounds=%d" % len(rounds))
     out.nontrivial = any(is_nontrivial_tree(t[0]) for t in rounds[0][1])
@@ -686,11 +714,18 @@ def run_hierarchical(case):
 # ----------------------------------------------------------------------------------------------------------------
 @st.composite
 def _tree(draw, max_splits, min_complete=0, graded_ok=True, weighted_ok=True, max_level=60):
-    shape = draw(st.sampled_from(["random", "random", "left", "right", "zigzag", "complete", "complete"]
+    shape = draw(st.sampled_from(["random", "random", "left", "right", "zigzag", "complete", "complete", "nearly-uniform"]
                                  if graded_ok else ["random", "complete", "complete"]))
     rmode = draw(st.sampled_from(["dyadic", "dyadic", "weighted", "extreme", "mixed"] if weighted_ok else ["dyadic"]))
+    if shape == "nearly-uniform":
+        # complete tree whose splits miss the midpoint by a relative 1e-6 .. 1e-4: nearly, but not, equidistant widths
+        rmode = "nearly"
+        eps = draw(st.sampled_from([5e-7, 2e-6, 1e-5, 5e-5]))
+        same_sign = draw(st.booleans())
 
     def ratio():
+        if rmode == "nearly":
+            return 0.5 + (eps if same_sign else eps * draw(st.sampled_from([-1.0, 1.0, 0.0])))
         if rmode == "dyadic":
             return 0.5
         if rmode == "weighted":
@@ -710,6 +745,9 @@ def _tree(draw, max_splits, min_complete=0, graded_ok=True, weighted_ok=True, ma
     depth = min_complete
     if shape == "complete":
         depth = max(min_complete, draw(st.integers(1, 3)))
+    if shape == "nearly-uniform":
+        depth = min(max_level, max(min_complete, draw(st.integers(1, 4)), 1))
+        max_splits = 2 ** depth - 1 + draw(st.sampled_from([0, 0, 0, 1]))
     for l in range(depth):
         # split every leaf of the current complete level, left to right (index 0,2,4,... after insertion)
         for j in range(2 ** l):
@@ -760,9 +798,14 @@ def _seq(draw, dim, other_tree):
     return seq
 
 
+_SCALE_DRAW = ["1"] * 6 + ["2^-30", "1e-9", "1e-7", "1e-6", "1e-3", "1e3", "2^20"]
+
+
 @st.composite
 def _domain(draw, dim):
-    return ([draw(st.sampled_from(_A)) for _ in range(dim)], [draw(st.sampled_from(_LEN)) for _ in range(dim)])
+    """(a0, len, scale labels): intervals in usual and unusual units, offsets included; per-dimension different units"""
+    return ([draw(st.sampled_from(_A)) for _ in range(dim)], [draw(st.sampled_from(_LEN)) for _ in range(dim)],
+            [draw(st.sampled_from(_SCALE_DRAW)) for _ in range(dim)])
 
 
 def trapezoid_strategy(tier):
@@ -771,13 +814,13 @@ def trapezoid_strategy(tier):
     @st.composite
     def s(draw):
         dim = draw(st.sampled_from([1, 1, 1, 2]))
-        a, ln = draw(_domain(dim))
+        a, ln, scale = draw(_domain(dim))
         mode = draw(st.sampled_from(["boundary", "noboundary", "modified", "modified"]))
         small = draw(st.integers(0, 5)) == 0       # the 3-6 point special cases get their own share
         def tree():
             return _tree(draw(st.integers(1, 4)) if small else (big if dim == 1 else 14))
         trees = [draw(tree()) for _ in range(dim)]
-        case = dict(a=a, len=ln, mode=mode, trees=trees, rng=draw(st.integers(0, 2 ** 31 - 1)),
+        case = dict(a=a, len=ln, scale=scale, mode=mode, trees=trees, rng=draw(st.integers(0, 2 ** 31 - 1)),
                     vscale=draw(st.sampled_from([1.0, 1.0, 1e3, 1e-3])))
         if draw(st.integers(0, 3)) == 0:
             case["seq"] = draw(_seq(dim, tree))
@@ -791,12 +834,12 @@ def highorder_strategy(tier):
     @st.composite
     def s(draw):
         dim = draw(st.sampled_from([1, 1, 1, 2]))
-        a, ln = draw(_domain(dim))
+        a, ln, scale = draw(_domain(dim))
         small = draw(st.integers(0, 5)) == 0
         def tree():
             return _tree(draw(st.integers(1, 5)) if small else (big if dim == 1 else 14))
         trees = [draw(tree()) for _ in range(dim)]
-        case = dict(a=a, len=ln, boundary=draw(st.booleans()), max_degree=draw(st.sampled_from([2, 5, 2, 5, 1, 3, 4])),
+        case = dict(a=a, len=ln, scale=scale, boundary=draw(st.booleans()), max_degree=draw(st.sampled_from([2, 5, 2, 5, 1, 3, 4])),
                     split_up=draw(st.booleans()), trees=trees, rng=draw(st.integers(0, 2 ** 31 - 1)))
         if draw(st.integers(0, 3)) == 0:
             case["seq"] = draw(_seq(dim, tree))
@@ -828,7 +871,7 @@ def hierarchical_strategy(tier):
     @st.composite
     def s(draw):
         dim = draw(st.sampled_from([1, 1, 1, 2]))
-        a, ln = draw(_domain(dim))
+        a, ln, scale = draw(_domain(dim))
         family = draw(st.sampled_from(["lagrange", "bspline"]))
         if family == "lagrange":
             p = draw(st.sampled_from([1, 2, 3, 4, 3, 2]))
@@ -847,7 +890,7 @@ def hierarchical_strategy(tier):
         def tree():
             return _tree(size, min_complete=0 if small else need, max_level=max_level)
         trees = [draw(tree()) for _ in range(dim)]
-        case = dict(a=a, len=ln, family=family, p=p, mode=mode, trees=trees, rng=draw(st.integers(0, 2 ** 31 - 1)))
+        case = dict(a=a, len=ln, scale=scale, family=family, p=p, mode=mode, trees=trees, rng=draw(st.integers(0, 2 ** 31 - 1)))
         if family == "bspline":
             case["max_level"] = max_level
         if seq:
